@@ -120,15 +120,46 @@ Definition obj_encode (su cb ss mut : bool) (acc : Z -> Z) (s : otree) : otree :
 Definition obj_edit (t : tree) (r : option bool) (s : otree) : otree :=
   mkOT (ot_heap s) t r (ot_stored s) (ot_saved s).
 
+(* Tree.suppress_unifurcations(update_bipartitions=True) (wave 8): the one operation that MAINTAINS the stored
+   list instead of encoding again.  Transcribed as to which objects stay in Tree.bipartition_encoding:
+
+     if update_bipartitions and self.bipartition_encoding: bipartitions_to_delete = set()
+     per node nd with exactly one child:   bipartitions_to_delete.add(id(nd.edge.bipartition))   the IDENTITY of the object
+     if bipartitions_to_delete:
+         self.bipartition_encoding = [b for b in old_encoding if id(b) not in bipartitions_to_delete]
+                                                                           a new list, the SAME objects, none written
+
+   (without a stored list, with an empty one and without outdegree-one nodes the stored list stays: the same
+   contents as the filter with nothing to delete).  The structure it leaves (t, r) is taken as given, as for
+   obj_edit (the splice itself is C03's subject; the history oracle checks that no outdegree-one node is left).
+   The getter's new object for an outdegree-one node whose edge never had one is bound to the REMOVED node's edge:
+   not reachable from the tree, not modelled.  No object is created, rebound or written, and the caller is
+   handed nothing: ot_saved (what ENCODINGS returned) stays. *)
+Definition is_unary (n : tree) : bool := match t_kids n with [_] => true | _ => false end.
+
+Definition unary_ids (t : tree) : list Z := map t_id (filter is_unary (postorder t)).
+
+Definition supp_deleted (h : oheap) (t : tree) : list Z :=
+  flat_map (fun k => match oh_slot h k with Some c => [c] | None => [] end) (unary_ids t).
+
+Definition supp_keep (del : list Z) (c : Z) : bool := negb (existsb (Z.eqb c) del).
+
+Definition obj_supp (t : tree) (r : option bool) (s : otree) : otree :=
+  mkOT (ot_heap s) t r
+       (option_map (filter (supp_keep (supp_deleted (ot_heap s) (ot_tree s)))) (ot_stored s))
+       (ot_saved s).
+
 Inductive hstep : Type :=
 | HEnc (su cb ss mut : bool)
 | HEdit (t : tree) (rooted : option bool)
+| HSupp (t : tree) (rooted : option bool)
 | HFail.                          (* the implementation raised: nothing further is compared *)
 
 Definition obj_step (acc : Z -> Z) (s : otree) (st : hstep) : otree :=
   match st with
   | HEnc su cb ss mut => obj_encode su cb ss mut acc s
   | HEdit t r => obj_edit t r s
+  | HSupp t r => obj_supp t r s
   | HFail => s
   end.
 
